@@ -200,40 +200,40 @@ def jwe_gate(ctx):
         enc = "A128GCM" if alg == "dir" else rng.choice(REC_JWE_ENC)
         if alg == "dir":
             enc = "A128GCM"
-        use_zip = rng.random() < 0.4
-        hdr = {"alg": alg, "enc": enc}
-        if use_zip:
-            hdr["zip"] = "DEF"
-        named = [alg, enc] + (["DEF"] if use_zip else [])
-        tok = jwe.encrypt_compact(dict(hdr), b"plaintext", key, algorithms=all_names)
-        obj = jwe.GeneralJSONEncryption(dict({"enc": enc}, **({"zip": "DEF"} if use_zip else {})), b"plaintext")
-        obj.add_recipient({"alg": alg}, key)
-        jtok = jwe.encrypt_json(obj, None, algorithms=all_names)
-        for allow in allow_lists(rng, all_names, rec):
-            want = all(usable(n, allow, all_names, rec) for n in named)
-            for via in ("algorithms", "registry"):
-                kw = {"algorithms": allow} if via == "algorithms" else {"registry": jwe.JWERegistry(algorithms=allow)}
-                for form in ("compact", "json"):
-                    for op in ("decrypt", "encrypt"):
-                        try:
-                            if op == "decrypt":
-                                r = jwe.decrypt_compact(tok, key, **kw) if form == "compact" else jwe.decrypt_json(copy.deepcopy(jtok), key, **kw)
-                                out = "ok" if r.plaintext == b"plaintext" else "wrong-plaintext"
-                            else:
-                                if form == "compact":
-                                    jwe.encrypt_compact(dict(hdr), b"x", key, **kw)
+        for use_zip in (False, True):
+            hdr = {"alg": alg, "enc": enc}
+            if use_zip:
+                hdr["zip"] = "DEF"
+            named = [alg, enc] + (["DEF"] if use_zip else [])
+            tok = jwe.encrypt_compact(dict(hdr), b"plaintext", key, algorithms=all_names)
+            obj = jwe.GeneralJSONEncryption(dict({"enc": enc}, **({"zip": "DEF"} if use_zip else {})), b"plaintext")
+            obj.add_recipient({"alg": alg}, key)
+            jtok = jwe.encrypt_json(obj, None, algorithms=all_names)
+            for allow in list(allow_lists(rng, all_names, rec)) + [[alg, enc], [alg, enc, "DEF"], [alg, "DEF"], [enc, "DEF"]]:
+                want = all(usable(n, allow, all_names, rec) for n in named)
+                for via in ("algorithms", "registry"):
+                    kw = {"algorithms": allow} if via == "algorithms" else {"registry": jwe.JWERegistry(algorithms=allow)}
+                    for form in ("compact", "json"):
+                        for op in ("decrypt", "encrypt"):
+                            try:
+                                if op == "decrypt":
+                                    r = jwe.decrypt_compact(tok, key, **kw) if form == "compact" else jwe.decrypt_json(copy.deepcopy(jtok), key, **kw)
+                                    out = "ok" if r.plaintext == b"plaintext" else "wrong-plaintext"
                                 else:
-                                    o2 = jwe.GeneralJSONEncryption(dict({"enc": enc}, **({"zip": "DEF"} if use_zip else {})), b"x")
-                                    o2.add_recipient({"alg": alg}, key)
-                                    jwe.encrypt_json(o2, None, **kw)
-                                out = "ok"
-                        except Exception as e:  # noqa: BLE001
-                            out = err_name(e)
-                        ctx.count(f"gate-jwe-{op}", (alg, enc, use_zip, repr(allow), via, form), True, out)
-                        if (out == "ok") != want or (not want and out != "UnsupportedAlgorithmError"):
-                            ctx.report(f"JWE {op} ({form}) with {named} under allow={allow} ({via}=): {out}",
-                                       {"header": hdr, "allow": allow, "via": via, "form": form, "op": op, "out": out},
-                                       f"gate-jwe-{op}:{'refused' if want else 'used-or-wrong-error'}")
+                                    if form == "compact":
+                                        jwe.encrypt_compact(dict(hdr), b"x", key, **kw)
+                                    else:
+                                        o2 = jwe.GeneralJSONEncryption(dict({"enc": enc}, **({"zip": "DEF"} if use_zip else {})), b"x")
+                                        o2.add_recipient({"alg": alg}, key)
+                                        jwe.encrypt_json(o2, None, **kw)
+                                    out = "ok"
+                            except Exception as e:  # noqa: BLE001
+                                out = err_name(e)
+                            ctx.count(f"gate-jwe-{op}", (alg, enc, use_zip, repr(allow), via, form), True, out)
+                            if (out == "ok") != want or (not want and out != "UnsupportedAlgorithmError"):
+                                ctx.report(f"JWE {op} ({form}) with {named} under allow={allow} ({via}=): {out}",
+                                           {"header": hdr, "allow": allow, "via": via, "form": form, "op": op, "out": out},
+                                           f"gate-jwe-{op}:{'refused' if want else 'used-or-wrong-error'}")
 
 
 def jwt_gate(ctx):
